@@ -414,6 +414,7 @@ def get_model_parser(top_rule, comments_model, **kwargs):
             Parses given string and creates model object graph.
             """
             old_debug_state = self.debug
+            user_attr_methods_replaced = False
 
             try:
                 if debug is not None:
@@ -431,6 +432,7 @@ def get_model_parser(top_rule, comments_model, **kwargs):
                 self._user_class_allocated = []
 
                 self._replace_user_attr_methods()
+                user_attr_methods_replaced = True
 
                 # Transform parse tree to model. Skip root node which
                 # represents the whole file ending in EOF.
@@ -444,9 +446,13 @@ def get_model_parser(top_rule, comments_model, **kwargs):
                 )
 
             except:  # noqa
-                # Restore of user classes replaced attr methods
-                self._restore_user_attr_methods()
-                self._drop_user_obj_attrs()
+                # Restore of user classes replaced attr methods. If the
+                # parse itself failed they have not been replaced by this
+                # parser: an enclosing load (this file is an import) may
+                # still rely on them.
+                if user_attr_methods_replaced:
+                    self._restore_user_attr_methods()
+                    self._drop_user_obj_attrs()
                 raise
 
             finally:
